@@ -65,7 +65,7 @@ pub fn fasta_named(records: &[(String, Vec<u8>)]) -> Vec<u8> {
     out
 }
 
-/// FASTA text in one of four layouts (records r0, r1, ...): 0 = one line each, LF; 1 = lines of 5, LF;
+/// FASTA text in one of four layouts (records r0, r1, ...): 0 = one line each, LF; 1 = lines of 5, LF, all records under the same identifier;
 /// 2 = lines of 4, CRLF; 3 = one line, CRLF, descriptions in the headers, no final line end.
 pub fn fasta_layout(records: &[Vec<u8>], layout: u64) -> Vec<u8> {
     let (width, eol): (usize, &[u8]) = match layout % 4 {
@@ -78,6 +78,9 @@ pub fn fasta_layout(records: &[Vec<u8>], layout: u64) -> Vec<u8> {
     for (i, r) in records.iter().enumerate() {
         if layout % 4 == 3 {
             out.extend_from_slice(format!(">r{i} len={} some text", r.len()).as_bytes());
+        } else if layout % 4 == 1 {
+            // every record under the same identifier (first word of the header)
+            out.extend_from_slice(format!(">rec copy {i}").as_bytes());
         } else {
             out.extend_from_slice(format!(">r{i}").as_bytes());
         }
